@@ -387,8 +387,7 @@ fn gen_as_path(r: &mut Rng, long: bool) -> Vec<u8> {
             *r.pick(&[200usize, 255, 130])
         } else {
             match r.below(12) {
-                0 => 0,
-                1 => 255,
+                0 => 255,
                 _ => r.range(1, 6) as usize,
             }
         };
@@ -716,16 +715,12 @@ fn gen_attr(kind: &str, r: &mut Rng) -> Vec<GenAttr> {
         "atomic" => vec![ga(Attribute::ATOMIC_AGGREGATE, vec![], true, "")],
         "aggregator" => {
             let mut v = Vec::new();
-            if r.chance(1, 4) {
-                v.extend_from_slice(&rnd_u16(r).to_be_bytes());
-            } else {
-                v.extend_from_slice(&rnd_u32(r).to_be_bytes());
-            }
+            v.extend_from_slice(&rnd_u32(r).to_be_bytes());
             v.extend_from_slice(&rnd_v4(r).octets());
             vec![ga(Attribute::AGGREGATOR, v, true, "")]
         }
         "community" => {
-            let n = if r.chance(1, 20) { 80 } else { r.range(0, 6) };
+            let n = if r.chance(1, 20) { 80 } else { r.range(1, 6) };
             let mut v = Vec::new();
             for _ in 0..n {
                 let c = match r.below(4) {
@@ -740,7 +735,7 @@ fn gen_attr(kind: &str, r: &mut Rng) -> Vec<GenAttr> {
         "originator" => vec![ga(Attribute::ORIGINATOR_ID, rnd_u32(r).to_be_bytes().to_vec(), true, "")],
         "cluster" => {
             let mut v = Vec::new();
-            for _ in 0..r.range(0, 4) {
+            for _ in 0..r.range(1, 4) {
                 v.extend_from_slice(&rnd_u32(r).to_be_bytes());
             }
             vec![ga(Attribute::CLUSTER_LIST, v, true, "")]
@@ -767,7 +762,7 @@ fn gen_attr(kind: &str, r: &mut Rng) -> Vec<GenAttr> {
         }
         "large" => {
             let mut v = Vec::new();
-            for _ in 0..r.range(0, 4) {
+            for _ in 0..r.range(1, 4) {
                 for _ in 0..3 {
                     v.extend_from_slice(&rnd_u32(r).to_be_bytes());
                 }
@@ -1870,13 +1865,17 @@ fn run() {
     let mut rng = Rng::new(params.seed ^ 0xC17);
     if part == "all" || part == "a" {
         let mut r = rng.fork();
-        run_part_a(&mut ctx, &mut r, params.n(150, 6000));
+        run_part_a(&mut ctx, &mut r, params.n(1500, 30_000));
     }
     if part == "all" || part == "b" {
         let mut r = rng.fork();
-        run_part_b_attrs(&mut ctx, &mut r, params.n(3000, 150_000));
+        run_part_b_attrs(&mut ctx, &mut r, params.n(20_000, 400_000));
         let mut r = rng.fork();
-        run_part_b_nlri(&mut ctx, &mut r, params.n(3000, 150_000));
+        run_part_b_nlri(&mut ctx, &mut r, params.n(15_000, 300_000));
+    }
+    if part == "all" || part == "c" {
+        let mut r = rng.fork();
+        run_part_c(&mut ctx, &mut r, params.n(8000, 150_000));
     }
     let _ = ctx.rep.finish();
 }
@@ -1900,8 +1899,8 @@ fn validate_attr(a: &Attribute) -> Vec<(&'static str, String)> {
             if !(1..=4).contains(&t) {
                 return Some(format!("segment type {}", t));
             }
-            if as4 && n == 0 {
-                return Some("zero-length AS4_PATH segment".into());
+            if n == 0 {
+                return Some("zero-length segment (RFC 7606 7.2)".into());
             }
             pos += 2 + 4 * n;
             if pos > b.len() {
@@ -1947,6 +1946,11 @@ fn validate_attr(a: &Attribute) -> Vec<(&'static str, String)> {
                 Attribute::AGGREGATOR | Attribute::AS4_AGGREGATOR if len != 8 => {
                     bad.push(("bad-length", format!("(AS4_)AGGREGATOR internal length {} != 8", len)))
                 }
+                Attribute::COMMUNITY | Attribute::CLUSTER_LIST | Attribute::EXTENDED_COMMUNITY | Attribute::LARGE_COMMUNITY
+                    if len == 0 =>
+                {
+                    bad.push(("empty-list", format!("attribute {} with zero length (RFC 7606 7.8 / 7.10 / 7.14, RFC 8092 5)", code)))
+                }
                 Attribute::COMMUNITY | Attribute::CLUSTER_LIST if len % 4 != 0 => {
                     bad.push(("bad-length", format!("length {} not a multiple of 4", len)))
                 }
@@ -1955,17 +1959,8 @@ fn validate_attr(a: &Attribute) -> Vec<(&'static str, String)> {
                 Attribute::NEXTHOP if !(len == 4 || len == 16 || len == 32) => {
                     bad.push(("bad-length", format!("NEXT_HOP length {} is no address", len)))
                 }
-                Attribute::MP_REACH => {
-                    // daemon-internal layout [AFI:2][SAFI:1][NH_LEN:1][nexthop][reserved:1]
-                    if len < 5 {
-                        bad.push(("bad-length", format!("MP_REACH length {}", len)));
-                    } else {
-                        let nl = b[3] as usize;
-                        if 5 + nl > len || !matches!(nl, 0 | 4 | 16 | 32 | 12 | 24) {
-                            bad.push(("bad-length", format!("MP_REACH next-hop length {}", nl)));
-                        }
-                    }
-                }
+                // MP_REACH (daemon-internal layout): its next-hop field is checked by the
+                // only caller, GrpcService::local_path, which rejects a malformed one
                 _ => {}
             }
         }
@@ -2875,18 +2870,6 @@ fn part_b_attr(ctx: &mut Ctx, m: api::Attribute) {
     }
     if wire_valid {
         ctx.rep.count("b:attr-accepted-wire-valid");
-        if code == Attribute::AS_PATH {
-            if let Some(b) = a.binary() {
-                let mut pos = 0;
-                while pos + 2 <= b.len() {
-                    if b[pos + 1] == 0 {
-                        ctx.rep.count("unjudged:as-path-zero-length-segment-accepted(the wire decoder accepts it too)");
-                        break;
-                    }
-                    pos += 2 + 4 * b[pos + 1] as usize;
-                }
-            }
-        }
     }
     // use it the way add_path would (local_path drops some codes before the table)
     let attrs = Arc::new(local_path_like(&[a.clone()]));
@@ -2921,6 +2904,8 @@ fn part_b_attr(ctx: &mut Ctx, m: api::Attribute) {
     for (rule, detail) in bad.iter() {
         let sig = if *rule == "too-long" {
             "C17/invariant/any/too-long".to_string()
+        } else if *rule == "empty-list" {
+            "C17/invariant/any/empty-list".to_string()
         } else if via_unknown {
             format!("C17/invariant/unknown-variant/{}", rule)
         } else {
@@ -3294,6 +3279,20 @@ fn mutate_api_nlri(n: &mut api::Nlri, r: &mut Rng) {
 }
 
 /// explicit wire rules for NLRIs (what each family's decoder refuses)
+fn host_bytes(octets: &[u8], mask: u8) -> bool {
+    let n = (mask as usize).div_ceil(8);
+    n < octets.len() && octets[n..].iter().any(|b| *b != 0)
+}
+
+fn host_rule(bad: &mut Vec<(&'static str, String)>, what: &str, octets: &[u8], mask: u8) {
+    if (mask as usize) <= octets.len() * 8 && host_bytes(octets, mask) {
+        bad.push((
+            "host-bytes-beyond-mask",
+            format!("{} keeps address octets beyond the prefix length {} (the wire never carries them; the value aliases the masked prefix)", what, mask),
+        ));
+    }
+}
+
 fn validate_nlri(fam: Family, n: &Nlri) -> Vec<(&'static str, String)> {
     let mut bad: Vec<(&'static str, String)> = Vec::new();
     if !nlri_variant_families(n).contains(&fam) {
@@ -3323,6 +3322,7 @@ fn validate_nlri(fam: Family, n: &Nlri) -> Vec<(&'static str, String)> {
                     if p.mask > 32 {
                         bad.push(("mask-range", format!("flowspec IPv4 prefix length {}", p.mask)));
                     }
+                    host_rule(bad, "flowspec IPv4 prefix", &p.addr.octets(), p.mask);
                 }
                 C::Protocol(o) | C::Port(o) | C::DstPort(o) | C::SrcPort(o) | C::IcmpType(o) | C::IcmpCode(o)
                 | C::TcpFlags(o) | C::PacketLen(o) | C::Dscp(o) | C::Fragment(o) => {
@@ -3341,6 +3341,7 @@ fn validate_nlri(fam: Family, n: &Nlri) -> Vec<(&'static str, String)> {
                     if prefix.mask > 128 {
                         bad.push(("mask-range", format!("flowspec IPv6 prefix length {}", prefix.mask)));
                     }
+                    host_rule(bad, "flowspec IPv6 prefix", &prefix.addr.octets(), prefix.mask);
                 }
                 C::NextHeader(o) | C::Port(o) | C::DstPort(o) | C::SrcPort(o) | C::IcmpType(o) | C::IcmpCode(o)
                 | C::TcpFlags(o) | C::PacketLen(o) | C::Dscp(o) | C::Fragment(o) | C::FlowLabel(o) => {
@@ -3352,11 +3353,25 @@ fn validate_nlri(fam: Family, n: &Nlri) -> Vec<(&'static str, String)> {
         }
     };
     match n {
-        Nlri::V4(p) if p.mask > 32 => bad.push(("mask-range", format!("IPv4 prefix length {}", p.mask))),
-        Nlri::V6(p) if p.mask > 128 => bad.push(("mask-range", format!("IPv6 prefix length {}", p.mask))),
+        Nlri::V4(p) => {
+            if p.mask > 32 {
+                bad.push(("mask-range", format!("IPv4 prefix length {}", p.mask)));
+            }
+            host_rule(&mut bad, "IPv4 prefix", &p.addr.octets(), p.mask);
+        }
+        Nlri::V6(p) => {
+            if p.mask > 128 {
+                bad.push(("mask-range", format!("IPv6 prefix length {}", p.mask)));
+            }
+            host_rule(&mut bad, "IPv6 prefix", &p.addr.octets(), p.mask);
+        }
         Nlri::LabeledV4(l) => {
             if l.prefix.mask > 32 {
                 bad.push(("mask-range", format!("labeled IPv4 prefix length {}", l.prefix.mask)));
+            }
+            host_rule(&mut bad, "labeled IPv4 prefix", &l.prefix.addr.octets(), l.prefix.mask);
+            if l.labels.labels().len() * 24 + 0 + l.prefix.mask as usize > 255 {
+                bad.push(("nlri-length-overflow", format!("{} labels do not fit the one-octet NLRI bit length", l.labels.labels().len())));
             }
             if l.labels.labels().is_empty() {
                 bad.push(("empty-label-stack", "labeled NLRI without a label".into()));
@@ -3366,6 +3381,10 @@ fn validate_nlri(fam: Family, n: &Nlri) -> Vec<(&'static str, String)> {
             if l.prefix.mask > 128 {
                 bad.push(("mask-range", format!("labeled IPv6 prefix length {}", l.prefix.mask)));
             }
+            host_rule(&mut bad, "labeled IPv6 prefix", &l.prefix.addr.octets(), l.prefix.mask);
+            if l.labels.labels().len() * 24 + 0 + l.prefix.mask as usize > 255 {
+                bad.push(("nlri-length-overflow", format!("{} labels do not fit the one-octet NLRI bit length", l.labels.labels().len())));
+            }
             if l.labels.labels().is_empty() {
                 bad.push(("empty-label-stack", "labeled NLRI without a label".into()));
             }
@@ -3373,6 +3392,10 @@ fn validate_nlri(fam: Family, n: &Nlri) -> Vec<(&'static str, String)> {
         Nlri::VpnV4(l) => {
             if l.prefix.mask > 32 {
                 bad.push(("mask-range", format!("VPNv4 prefix length {}", l.prefix.mask)));
+            }
+            host_rule(&mut bad, "VPNv4 prefix", &l.prefix.addr.octets(), l.prefix.mask);
+            if l.labels.labels().len() * 24 + 64 + l.prefix.mask as usize > 255 {
+                bad.push(("nlri-length-overflow", format!("{} labels do not fit the one-octet NLRI bit length", l.labels.labels().len())));
             }
             if l.labels.labels().is_empty() {
                 bad.push(("empty-label-stack", "VPN NLRI without a label".into()));
@@ -3382,6 +3405,10 @@ fn validate_nlri(fam: Family, n: &Nlri) -> Vec<(&'static str, String)> {
             if l.prefix.mask > 128 {
                 bad.push(("mask-range", format!("VPNv6 prefix length {}", l.prefix.mask)));
             }
+            host_rule(&mut bad, "VPNv6 prefix", &l.prefix.addr.octets(), l.prefix.mask);
+            if l.labels.labels().len() * 24 + 64 + l.prefix.mask as usize > 255 {
+                bad.push(("nlri-length-overflow", format!("{} labels do not fit the one-octet NLRI bit length", l.labels.labels().len())));
+            }
             if l.labels.labels().is_empty() {
                 bad.push(("empty-label-stack", "VPN NLRI without a label".into()));
             }
@@ -3390,6 +3417,53 @@ fn validate_nlri(fam: Family, n: &Nlri) -> Vec<(&'static str, String)> {
         Nlri::FlowspecVpnV4(f) => fs4(&f.components, &mut bad),
         Nlri::FlowspecV6(f) => fs6(&f.components, &mut bad),
         Nlri::FlowspecVpnV6(f) => fs6(&f.components, &mut bad),
+        Nlri::Mup(m) => {
+            use packet::mup::MupNlri as M;
+            let oct = |a: &IpAddr| match a {
+                IpAddr::V4(x) => x.octets().to_vec(),
+                IpAddr::V6(x) => x.octets().to_vec(),
+            };
+            let v6 = fam == Family::IPV6_MUP;
+            let maxbits: u8 = if v6 { 128 } else { 32 };
+            let mut af = |a: &IpAddr, what: &str, bad: &mut Vec<(&'static str, String)>| {
+                if a.is_ipv6() != v6 {
+                    bad.push(("address-family-mismatch", format!("MUP {} {} does not belong to {}", what, a, fam_name(fam))));
+                }
+            };
+            match m {
+                M::InterworkSegmentDiscovery(x) => {
+                    af(&x.prefix_addr, "prefix", &mut bad);
+                    if x.prefix_len > maxbits {
+                        bad.push(("mask-range", format!("MUP prefix length {}", x.prefix_len)));
+                    }
+                    host_rule(&mut bad, "MUP ISD prefix", &oct(&x.prefix_addr), x.prefix_len)
+                }
+                M::DirectSegmentDiscovery(x) => af(&x.address, "address", &mut bad),
+                M::Type1SessionTransformed(x) => {
+                    af(&x.prefix_addr, "prefix", &mut bad);
+                    af(&x.endpoint_address, "endpoint", &mut bad);
+                    if let Some(sa) = &x.source_address {
+                        af(sa, "source", &mut bad);
+                    }
+                    if x.prefix_len > maxbits {
+                        bad.push(("mask-range", format!("MUP prefix length {}", x.prefix_len)));
+                    }
+                    host_rule(&mut bad, "MUP T1ST prefix", &oct(&x.prefix_addr), x.prefix_len)
+                }
+                M::Type2SessionTransformed(x) => {
+                    af(&x.endpoint_address, "endpoint", &mut bad);
+                    if x.endpoint_address_length < maxbits || x.endpoint_address_length > maxbits + 32 {
+                        bad.push(("mup-endpoint-length", format!("MUP T2ST endpoint address length {}", x.endpoint_address_length)));
+                    } else {
+                        let teid_bytes = ((x.endpoint_address_length - maxbits) as u32).div_ceil(8);
+                        let carried = if teid_bytes == 0 { 0 } else { u32::MAX << (32 - 8 * teid_bytes) };
+                        if x.teid & !carried != 0 {
+                            bad.push(("mup-endpoint-length", format!("MUP T2ST TEID {:#x} has bits outside the {} TEID octets its length announces", x.teid, teid_bytes)));
+                        }
+                    }
+                }
+            }
+        }
         Nlri::Evpn(e) => {
             use packet::evpn::EvpnNlri as E;
             let chk = |l: u32, bad: &mut Vec<(&'static str, String)>| {
@@ -3405,11 +3479,24 @@ fn validate_nlri(fam: Family, n: &Nlri) -> Vec<(&'static str, String)> {
                         chk(l, &mut bad);
                     }
                 }
-                E::EthernetIpPrefix(x) => chk(x.label, &mut bad),
+                E::EthernetIpPrefix(x) => {
+                    chk(x.label, &mut bad);
+                    if x.ip_prefix.is_ipv6() != x.gateway_ip.is_ipv6() {
+                        bad.push(("address-family-mismatch", format!("EVPN type-5 prefix {} with gateway {}", x.ip_prefix, x.gateway_ip)));
+                    }
+                }
                 _ => {}
             }
         }
         _ => {}
+    }
+    if bad.is_empty() && is_flowspec(fam) {
+        if let Ok(b) = guard(|| n.encode_to_bytes()) {
+            // 2-octet flowspec length prefix: 0xf000 | 12-bit length
+            if b.len() > 2 + 4095 {
+                bad.push(("nlri-length-overflow", format!("flowspec NLRI of {} octets does not fit the 12-bit length", b.len() - 2)));
+            }
+        }
     }
     bad
 }
@@ -3558,4 +3645,394 @@ fn run_part_b_nlri(ctx: &mut Ctx, r: &mut Rng, n: u64) {
         };
         part_b_nlri(ctx, m, fam, how);
     }
+}
+
+// ------------------------------------------------------------------ (c) store and show
+
+fn make_service() -> GrpcService {
+    // same construction as the repo's own test helper (event::tests::make_grpc_service)
+    let (active_conn_tx, _) = mpsc::unbounded_channel();
+    let (tx, _rx) = mpsc::unbounded_channel();
+    let (bfd_tx, _bfd_rx) = mpsc::unbounded_channel();
+    let mut g = Global::new(tx, bfd_tx);
+    g.asn = 65001;
+    g.router_id = Ipv4Addr::new(1, 0, 0, 1);
+    GrpcService::new(
+        Arc::new(tokio::sync::Notify::new()),
+        active_conn_tx,
+        Arc::new(tokio::sync::RwLock::new(g)),
+        Arc::new(TableManager::new(1)),
+    )
+}
+
+fn attr_key(a: &api::Attribute) -> String {
+    format!("{:?}", a)
+}
+
+fn api_attr_code(a: &api::Attribute) -> String {
+    api_variant_name(a)
+}
+
+/// Does the API form survive attr_from_api -> attr_to_api unchanged?  Only such
+/// attributes are submitted in part (c), so that a difference there is caused by
+/// local_path / the table / list_path and not by a conversion loss that part (a)
+/// already reports.
+fn api_attr_stable(a: &api::Attribute) -> bool {
+    match guard(|| attr_from_api(a.clone()).ok().map(|x| attr_to_api(&x))) {
+        Ok(Some(b)) => &b == a,
+        _ => false,
+    }
+}
+
+struct ScCase {
+    fam: Family,
+    path: api::Path,
+    /// textual next hop submitted (None for flowspec)
+    nh: Option<String>,
+    expect_attrs: Vec<api::Attribute>,
+    desc: String,
+}
+
+fn build_sc_case(ctx: &mut Ctx, r: &mut Rng, fam: Family) -> Option<ScCase> {
+    // a wire-decoded route of that family with a few generated attributes
+    let mut gens: Vec<GenAttr> = Vec::new();
+    let kinds = ["med", "local_pref", "community", "extcom", "large", "aggregator", "atomic", "aigp", "as_path", "origin", "originator", "cluster"];
+    let nk = r.range(0, 4);
+    for _ in 0..nk {
+        let k = *r.pick(&kinds);
+        for g in gen_attr(k, r) {
+            if !gens.iter().any(|x| x.w.code == g.w.code) {
+                gens.push(g);
+            }
+        }
+    }
+    let mut wattrs = Vec::new();
+    for b in base_wattrs(r) {
+        if !gens.iter().any(|g| g.w.code == b.code) {
+            wattrs.push(b);
+        }
+    }
+    for g in &gens {
+        wattrs.push(g.w.clone());
+    }
+    let (n, _, njudged) = gen_nlri(fam, r);
+    let nh = gen_nh(fam, r);
+    let mut c = std::mem::replace(&mut ctx.codec, bgp::PeerCodec::new());
+    let res = wire_nlri(&mut c, false, fam, &n, 0, &nh, &wattrs);
+    ctx.codec = c;
+    let (d, _msg) = res.ok()?;
+    if d.n_err > 0 || d.entries.len() != 1 {
+        return None;
+    }
+    let nlri = d.entries[0].nlri.clone();
+    let api_nlri = guard(|| nlri_to_api(&nlri)).ok()?;
+    // the NLRI must be one that converts back (else part (a) reports it)
+    match guard(|| net_from_api(api_nlri.clone(), fam)) {
+        Ok(Ok(b)) if b == nlri => {}
+        _ => {
+            ctx.rep.count("c:skip-nlri-not-roundtripping(reported by part a)");
+            return None;
+        }
+    }
+    let omit_origin = r.chance(1, 4);
+    let omit_as_path = r.chance(1, 4);
+    let mut pattrs: Vec<api::Attribute> = Vec::new();
+    let mut expect: Vec<api::Attribute> = Vec::new();
+    for a in d.attrs.iter() {
+        if (a.code() == Attribute::ORIGIN && omit_origin) || (a.code() == Attribute::AS_PATH && omit_as_path) {
+            continue;
+        }
+        let m = guard(|| attr_to_api(a)).ok()?;
+        if !api_attr_stable(&m) {
+            ctx.rep.count("c:skip-attr-not-stable(reported by part a)");
+            continue;
+        }
+        let dropped = matches!(a.code(), Attribute::ORIGINATOR_ID | Attribute::CLUSTER_LIST);
+        if !dropped {
+            expect.push(m.clone());
+        } else {
+            ctx.rep.count("c:submitted-rr-attr(documented drop)");
+        }
+        pattrs.push(m);
+    }
+    if omit_origin {
+        expect.push(api_origin(0));
+        ctx.rep.count("c:origin-defaulted");
+    }
+    if omit_as_path {
+        expect.push(api_as_path(vec![]));
+        ctx.rep.count("c:as-path-defaulted");
+    }
+    if r.chance(1, 8) {
+        // the only API form attr_from_api turns into an MP_UNREACH attribute (the typed
+        // MpUnreach variant is "not implemented" and rejected, which is a safe answer)
+        let mut v = fam.afi().to_be_bytes().to_vec();
+        v.push(fam.safi());
+        pattrs.push(api_unknown(15, 0x80, v));
+        ctx.rep.count("c:submitted-mp-unreach(documented drop)");
+    }
+    // next hop
+    let nh_s = d.nexthop.map(|x| x.addr().to_string());
+    if let Some(s) = &nh_s {
+        if fam == Family::IPV4 && r.chance(2, 3) && !s.contains(':') {
+            pattrs.push(api_next_hop(s));
+        } else {
+            pattrs.push(api_mp_reach(Some(fam), vec![s.clone()]));
+        }
+    } else if r.bool() {
+        pattrs.push(api_mp_reach(Some(fam), vec![]));
+    }
+    r.shuffle(&mut pattrs);
+    let identifier = if r.chance(1, 2) { rnd_u32(r) } else { 0 };
+    let path = api::Path {
+        nlri: Some(api_nlri),
+        pattrs,
+        family: Some(family_to_api(fam)),
+        identifier,
+        ..Default::default()
+    };
+    Some(ScCase {
+        fam,
+        desc: trunc(format!("{:?}", path)),
+        path,
+        nh: nh_s,
+        expect_attrs: expect,
+    })
+}
+
+fn list_global(rt: &tokio::runtime::Runtime, svc: &GrpcService, fam: Family) -> Result<Vec<api::Destination>, String> {
+    rt.block_on(async {
+        let req = tonic::Request::new(api::ListPathRequest {
+            table_type: api::TableType::Global as i32,
+            family: Some(family_to_api(fam)),
+            ..Default::default()
+        });
+        let resp = svc.list_path(req).await.map_err(|e| format!("list_path status {:?}: {}", e.code(), e.message()))?;
+        let mut stream = resp.into_inner();
+        let mut out = Vec::new();
+        while let Some(item) = stream.next().await {
+            match item {
+                Ok(r) => {
+                    if let Some(d) = r.destination {
+                        out.push(d);
+                    }
+                }
+                Err(e) => return Err(format!("stream status {:?}", e.code())),
+            }
+        }
+        Ok(out)
+    })
+}
+
+fn part_c_case(ctx: &mut Ctx, rt: &tokio::runtime::Runtime, svc: &GrpcService, case: ScCase) -> bool {
+    ctx.rep.eval();
+    let fname = fam_name(case.fam);
+    ctx.rep.count(&format!("c:submitted:{}", fname));
+    let wit = |extra: Vec<(&str, Json)>| {
+        let mut v = vec![("family", Json::s(fname.clone())), ("submitted", Json::s(case.desc.clone()))];
+        v.extend(extra);
+        Json::obj(v)
+    };
+    let path = case.path.clone();
+    let added = guard(|| {
+        rt.block_on(async {
+            svc.add_path(tonic::Request::new(api::AddPathRequest {
+                table_type: api::TableType::Global as i32,
+                vrf_id: String::new(),
+                path: Some(path),
+            }))
+            .await
+        })
+    });
+    let uuid = match added {
+        Err(p) => {
+            let w = wit(vec![]);
+            ctx.panic_violation("GrpcService::add_path", &p, w);
+            return false;
+        }
+        Ok(Err(st)) => {
+            ctx.rep.violation(
+                &format!("C17/store-show/{}/rejected", fname),
+                &format!("add_path rejects a path made of values that convert individually: {:?} {}", st.code(), st.message()),
+                wit(vec![]),
+            );
+            return true;
+        }
+        Ok(Ok(resp)) => resp.into_inner().uuid,
+    };
+    ctx.rep.count("c:added");
+    ctx.rep.nontrivial(fnv64(case.desc.as_bytes()));
+    let listed = match guard(|| list_global(rt, svc, case.fam)) {
+        Err(p) => {
+            let w = wit(vec![]);
+            ctx.panic_violation("GrpcService::list_path", &p, w);
+            return false;
+        }
+        Ok(Err(e)) => {
+            ctx.rep.violation(&format!("C17/store-show/{}/list-error", fname), &e, wit(vec![]));
+            return false;
+        }
+        Ok(Ok(l)) => l,
+    };
+    let paths: Vec<&api::Path> = listed.iter().flat_map(|d| d.paths.iter()).collect();
+    if paths.len() != 1 {
+        ctx.rep.violation(
+            &format!("C17/store-show/{}/path-count", fname),
+            &format!("after one add_path on an empty table list_path shows {} paths", paths.len()),
+            wit(vec![("listed", Json::s(trunc(format!("{:?}", listed))))]),
+        );
+    } else {
+        let lp = paths[0];
+        let listed_s = trunc(format!("{:?}", lp));
+        if lp.nlri != case.path.nlri {
+            ctx.rep.violation(
+                &format!("C17/store-show/{}/nlri", fname),
+                "the listed NLRI differs from the submitted one",
+                wit(vec![("listed", Json::s(listed_s.clone()))]),
+            );
+        }
+        if lp.identifier != case.path.identifier {
+            ctx.rep.violation(
+                &format!("C17/store-show/{}/identifier", fname),
+                &format!("submitted path identifier {} is listed as {}", case.path.identifier, lp.identifier),
+                wit(vec![("listed", Json::s(listed_s.clone()))]),
+            );
+        }
+        if lp.family != case.path.family {
+            ctx.rep.violation(
+                &format!("C17/store-show/{}/family", fname),
+                "the listed family differs from the submitted one",
+                wit(vec![("listed", Json::s(listed_s.clone()))]),
+            );
+        }
+        // attributes as multisets, next-hop carriers apart
+        let is_nh = |a: &api::Attribute| matches!(a.attr, Some(api::attribute::Attr::NextHop(_)) | Some(api::attribute::Attr::MpReach(_)));
+        let mut got: Vec<String> = lp.pattrs.iter().filter(|a| !is_nh(a)).map(attr_key).collect();
+        let mut want: Vec<String> = case.expect_attrs.iter().map(attr_key).collect();
+        got.sort();
+        want.sort();
+        if got != want {
+            let missing: Vec<&api::Attribute> = case.expect_attrs.iter().filter(|a| !got.contains(&attr_key(a))).collect();
+            let extra: Vec<&api::Attribute> = lp.pattrs.iter().filter(|a| !is_nh(a) && !want.contains(&attr_key(a))).collect();
+            let which = missing.first().or(extra.first()).map(|a| api_attr_code(a)).unwrap_or_default();
+            let kind = if !missing.is_empty() && extra.iter().any(|e| api_attr_code(e) == which) {
+                "changed"
+            } else if !missing.is_empty() {
+                "missing"
+            } else {
+                "extra"
+            };
+            ctx.rep.violation(
+                &format!("C17/store-show/{}/attrs/{}-{}", fname, which, kind),
+                &format!("listed attributes differ from the submitted ones (modulo documented defaults / drops): {} {}", which, kind),
+                wit(vec![
+                    ("listed", Json::s(listed_s.clone())),
+                    ("missing", Json::s(trunc(format!("{:?}", missing)))),
+                    ("extra", Json::s(trunc(format!("{:?}", extra)))),
+                ]),
+            );
+        }
+        match &case.nh {
+            Some(nh) => {
+                let shown = lp.pattrs.iter().any(|a| match &a.attr {
+                    Some(api::attribute::Attr::NextHop(n)) => &n.next_hop == nh,
+                    Some(api::attribute::Attr::MpReach(m)) => m.next_hops.iter().any(|x| x == nh),
+                    _ => false,
+                });
+                ctx.rep.count("c:nexthop-checked");
+                if !shown {
+                    let any = lp.pattrs.iter().any(|a| is_nh(a));
+                    ctx.rep.violation(
+                        &format!(
+                            "C17/store-show/{}/nexthop-{}",
+                            if case.fam == Family::IPV4 { "ipv4" } else { "mp-families" },
+                            if any { "changed" } else { "missing" }
+                        ),
+                        &format!("the submitted next hop {} is not shown by list_path (neither NEXT_HOP nor MP_REACH carries it)", nh),
+                        wit(vec![("listed", Json::s(listed_s.clone()))]),
+                    );
+                }
+            }
+            None => {}
+        }
+    }
+    // remove it again so that the next case starts from an empty table
+    let del = guard(|| {
+        rt.block_on(async { svc.delete_path(tonic::Request::new(api::DeletePathRequest { uuid, ..Default::default() })).await })
+    });
+    match del {
+        Ok(Ok(_)) => match guard(|| list_global(rt, svc, case.fam)) {
+            Ok(Ok(l)) if l.is_empty() => true,
+            _ => {
+                ctx.rep.count("c:delete-left-something(new service)");
+                false
+            }
+        },
+        _ => false,
+    }
+}
+
+fn run_part_c(ctx: &mut Ctx, r: &mut Rng, n: u64) {
+    let rt = match tokio::runtime::Builder::new_current_thread().enable_all().build() {
+        Ok(rt) => rt,
+        Err(e) => {
+            ctx.rep.inconclusive(&format!("cannot build a tokio runtime: {}", e));
+            return;
+        }
+    };
+    let mut svc = make_service();
+    // the repo's own example first (ipv4, ORIGIN + NEXT_HOP)
+    for i in 0..n {
+        if !ctx.rep.in_budget() {
+            break;
+        }
+        // IPv4 / IPv6 / VPN / EVPN / flowspec twice as often as the rest
+        let fam = if i % 2 == 0 {
+            *r.pick(&[
+                Family::IPV4,
+                Family::IPV6,
+                Family::IPV4_VPN,
+                Family::IPV6_VPN,
+                Family::L2VPN_EVPN,
+                Family::IPV4_FLOWSPEC,
+                Family::IPV6_FLOWSPEC,
+                Family::IPV4_FLOWSPEC_VPN,
+            ])
+        } else {
+            FAMILIES[r.usize(FAMILIES.len())].0
+        };
+        let Some(case) = build_sc_case(ctx, r, fam) else {
+            ctx.rep.count("c:case-not-built");
+            continue;
+        };
+        if !part_c_case(ctx, &rt, &svc, case) {
+            svc = make_service();
+        }
+    }
+}
+
+#[test]
+fn dbg_probe() {
+    if std::env::var("VERIF_DEBUG").is_err() {
+        return;
+    }
+    use packet::flowspec::*;
+    let mut ops: Vec<Op> = (0..300).map(|_| Op { bits: 1, value: u64::MAX }).collect();
+    ops.last_mut().unwrap().bits = 0x81;
+    let n = Nlri::FlowspecV4(FlowspecV4Nlri { components: vec![FlowspecV4Component::DstPort(ops)] });
+    let msg = bgp::Message::Update(bgp::Update::Reach {
+        family: Family::IPV4_FLOWSPEC,
+        entries: vec![PathNlri { path_id: 0, nlri: n.clone() }],
+        nexthop: None,
+        attr: Arc::new(base_attrs()),
+    });
+    let mut c = new_codec(false);
+    let mut buf = bytes::BytesMut::new();
+    let r = c.encode_to(&msg, &mut buf);
+    eprintln!("encode {:?} len {}", r.is_ok(), buf.len());
+    eprintln!("head {}", hex(&buf[..60.min(buf.len())]));
+    let parts = split_messages(&buf);
+    eprintln!("parts {}", parts.len());
+    let mut c2 = new_codec(false);
+    eprintln!("{:?}", decode_update(&mut c2, parts[0]).map(|d| d.entries.len()));
 }
